@@ -436,7 +436,7 @@ func sections(r *vk.Run) []section {
 			}
 		}
 	}})
-	secs = append(secs, seqSection(r), trySection(r), compoundSection(r), limitSection(), slotSection(r))
+	secs = append(secs, seqSection(r), trySection(r), compoundSection(r), limitSection(), slotSection(r), freshSection(), freshCompoundSection())
 	// cheap and diverse sections first, the big sweeps last (the deadline, if
 	// it ever strikes, then cuts the most redundant part).
 	order := map[string]int{"nullary": 0, "limits": 1, "unary": 2, "memcpy": 3, "big-values": 4, "try-nests(depth2)": 5}
@@ -450,7 +450,7 @@ func sections(r *vk.Run) []section {
 				return 10 // len 4: the largest section of the thorough tier goes last
 			}
 			return 6
-		case strings.HasPrefix(s.name, "slots"):
+		case strings.HasPrefix(s.name, "slots"), strings.HasPrefix(s.name, "result-freshness"):
 			return 6
 		case s.name == "binary":
 			return 7
@@ -1003,5 +1003,221 @@ func slotSection(r *vk.Run) section {
 			}
 		}
 		rec([]int{j})
+	}}
+}
+
+// ---- result freshness ------------------------------------------------------------------------------------
+//
+// NeoVM: the splice instructions "Concatenates two strings" (CAT), "Returns a
+// section of a string" (SUBSTR), "Keeps only characters left/right of the
+// specified point" (LEFT/RIGHT) push a NEW Buffer; CONVERT to another type
+// makes a new item (own type: the item itself); a ByteString is immutable.
+// An implementation that returns memory of an operand (for instance CAT with
+// an empty operand) gives the right immediate result and is exposed only by a
+// later in-place mutation. Pattern: a kept twice on the stack; producer turns
+// the upper copy into r (optionally a second producer turns r into r');
+// every in-place mutation of the result (or, for Buffer originals, of the
+// original); then the result is dropped (final stack = the original) or both
+// are left.
+
+type producer struct {
+	name string
+	// code for an operand of length n on top of the stack; outLen < 0: the
+	// producer is not applicable / faults for this n.
+	gen func(n int) (code []byte, outLen int)
+}
+
+func freshProducers() []producer {
+	empty := pushD(nil)
+	fixed := func(name string, code []byte, delta int) producer {
+		return producer{name, func(n int) ([]byte, int) { return code, n + delta }}
+	}
+	return []producer{
+		fixed("CAT(a,bytes())", cat(empty, op(sv.CAT)), 0),
+		fixed("CAT(a,buffer())", cat(pushBuf(nil), op(sv.CAT)), 0),
+		fixed("CAT(a,0)", cat(pushI(0), op(sv.CAT)), 0), // Integer 0 has an empty span
+		fixed("CAT(bytes(),a)", cat(empty, op(sv.SWAP), op(sv.CAT)), 0),
+		fixed("CAT(buffer(),a)", cat(pushBuf(nil), op(sv.SWAP), op(sv.CAT)), 0),
+		fixed("CAT(a,bytes(7a))", cat(pushD([]byte{0x7a}), op(sv.CAT)), 1),
+		fixed("CAT(bytes(7a),a)", cat(pushD([]byte{0x7a}), op(sv.SWAP), op(sv.CAT)), 1),
+		{"CAT(a,a)", func(n int) ([]byte, int) { return cat(op(sv.DUP), op(sv.CAT)), 2 * n }},
+		{"SUBSTR(0,len)", func(n int) ([]byte, int) { return cat(pushI(0), pushI(int64(n)), op(sv.SUBSTR)), n }},
+		{"SUBSTR(0,0)", func(n int) ([]byte, int) { return cat(pushI(0), pushI(0), op(sv.SUBSTR)), 0 }},
+		{"SUBSTR(1,len-1)", func(n int) ([]byte, int) {
+			if n < 1 {
+				return nil, -1
+			}
+			return cat(pushI(1), pushI(int64(n-1)), op(sv.SUBSTR)), n - 1
+		}},
+		{"LEFT(len)", func(n int) ([]byte, int) { return cat(pushI(int64(n)), op(sv.LEFT)), n }},
+		{"LEFT(0)", func(n int) ([]byte, int) { return cat(pushI(0), op(sv.LEFT)), 0 }},
+		{"RIGHT(len)", func(n int) ([]byte, int) { return cat(pushI(int64(n)), op(sv.RIGHT)), n }},
+		{"RIGHT(0)", func(n int) ([]byte, int) { return cat(pushI(0), op(sv.RIGHT)), 0 }},
+		fixed("CONVERT(Buffer)", convertTo(sv.TBuffer), 0),
+		fixed("CONVERT(ByteString)", convertTo(sv.TByteString), 0),
+		fixed("CONVERT(ByteString),CONVERT(Buffer)", cat(convertTo(sv.TByteString), convertTo(sv.TBuffer)), 0),
+		{"NEWBUFFER,MEMCPY(from a)", func(n int) ([]byte, int) {
+			// [.., a] -> [.., d] with d = new buffer filled from a
+			return cat(pushI(int64(n)), op(sv.NEWBUFFER), op(sv.DUP), op(sv.ROT), // d d a
+				pushI(0), op(sv.SWAP), pushI(0), pushI(int64(n)), op(sv.MEMCPY)), n
+		}},
+		fixed("copy,REVERSEITEMS", cat(convertTo(sv.TByteString), convertTo(sv.TBuffer), op(sv.DUP), op(sv.REVERSEITEMS)), 0),
+		fixed("DUP(identity)", op(sv.NOP), 0),
+	}
+}
+
+// mutations of the item on top of the stack (length m); the item stays on the stack.
+func freshMutations(m int) []cop {
+	var out []cop
+	idx := map[int]bool{}
+	for _, i := range []int{0, 1, 2, m / 2, m - 1} {
+		if i >= 0 && i < m && !idx[i] {
+			idx[i] = true
+			out = append(out, cop{fmt.Sprintf("SETITEM(%d,5a)", i), cat(op(sv.DUP), pushI(int64(i)), pushI(0x5a), op(sv.SETITEM))})
+		}
+	}
+	out = append(out, cop{"REVERSEITEMS", cat(op(sv.DUP), op(sv.REVERSEITEMS))})
+	if m >= 1 {
+		out = append(out,
+			cop{"MEMCPY(into 0)", cat(op(sv.DUP), pushI(0), pushD([]byte{0x5b}), pushI(0), pushI(1), op(sv.MEMCPY))},
+			cop{"MEMCPY(into last)", cat(op(sv.DUP), pushI(int64(m-1)), pushD([]byte{0x5c}), pushI(0), pushI(1), op(sv.MEMCPY))})
+	}
+	return out
+}
+
+func freshSection() section {
+	type orig struct {
+		name string
+		code []byte
+		n    int
+	}
+	var origs []orig
+	for _, n := range []int{0, 1, 3, 32} {
+		d := make([]byte, n)
+		for i := range d {
+			d[i] = byte(i + 1)
+		}
+		origs = append(origs, orig{fmt.Sprintf("bytes(%d)", n), pushD(d), n}, orig{fmt.Sprintf("buffer(%d)", n), pushBuf(d), n})
+	}
+	prods := freshProducers()
+	return section{"result-freshness", len(origs), func(j int, emit func(prog)) {
+		o := origs[j]
+		run := func(pname string, pcode []byte, m int) {
+			base := cat(o.code, op(sv.DUP), pcode) // [a, r]
+			e := func(what string, code ...[]byte) {
+				emit(prog{Key: "FRESH:" + o.name + ":" + pname + ":" + what, Class: "fresh-" + strings.SplitN(pname, "(", 2)[0], Script: cat(append([][]byte{base}, code...)...)})
+			}
+			e("none")
+			for _, mu := range freshMutations(m) {
+				e("result."+mu.Name+",DROP", mu.Code, op(sv.DROP)) // final stack: the original
+				e("result."+mu.Name+",both", mu.Code)
+			}
+			// mutate the ORIGINAL (possible for Buffer originals) and look at the result
+			for _, mu := range freshMutations(o.n) {
+				e("original."+mu.Name+",both", op(sv.SWAP), mu.Code, op(sv.SWAP))
+				e("original."+mu.Name+",NIP", op(sv.SWAP), mu.Code, op(sv.DROP))
+			}
+		}
+		for _, p := range prods {
+			c1, m1 := p.gen(o.n)
+			if m1 < 0 {
+				continue
+			}
+			run(p.name, c1, m1)
+			for _, q := range prods {
+				c2, m2 := q.gen(m1)
+				if m2 < 0 {
+					continue
+				}
+				run(p.name+";"+q.name, cat(c1, c2), m2)
+			}
+		}
+	}}
+}
+
+// freshCompoundSection: the same pattern for compound results whose aliasing
+// is part of the NeoVM semantics: VALUES/KEYS make a new Array that shares the
+// elements (Struct elements cloned), CONVERT Array<->Struct makes a new
+// container with the same elements, PACK/UNPACK move references, APPEND and
+// SETITEM clone a Struct value, everything else keeps identity.
+func freshCompoundSection() section {
+	arr := func(elems ...[]byte) []byte { // elems given first..last
+		var c []byte
+		for i := len(elems) - 1; i >= 0; i-- {
+			c = append(c, elems[i]...)
+		}
+		return cat(c, pushI(int64(len(elems))), op(sv.PACK))
+	}
+	str := func(elems ...[]byte) []byte {
+		var c []byte
+		for i := len(elems) - 1; i >= 0; i-- {
+			c = append(c, elems[i]...)
+		}
+		return cat(c, pushI(int64(len(elems))), op(sv.PACKSTRUCT))
+	}
+	origs := []val{
+		{Name: "array[1,2,3]", Code: arr(pushI(1), pushI(2), pushI(3))},
+		{Name: "array[array[7],array[8]]", Code: arr(arr(pushI(7)), arr(pushI(8)))},
+		{Name: "array[struct[1,2],buffer(0102)]", Code: arr(str(pushI(1), pushI(2)), pushBuf([]byte{1, 2}))},
+		{Name: "struct[1,struct[2],array[3]]", Code: str(pushI(1), str(pushI(2)), arr(pushI(3)))},
+		{Name: "map{0:array[7],1:struct[5]}", Code: cat(str(pushI(5)), pushI(1), arr(pushI(7)), pushI(0), pushI(2), op(sv.PACKMAP))},
+		{Name: "map{0:buffer(0102),1:map{}}", Code: cat(op(sv.NEWMAP), pushI(1), pushBuf([]byte{1, 2}), pushI(0), pushI(2), op(sv.PACKMAP))},
+	}
+	prods := []cop{
+		{"DUP(identity)", op(sv.NOP)},
+		{"VALUES", op(sv.VALUES)},
+		{"KEYS", op(sv.KEYS)},
+		{"CONVERT(Array)", convertTo(sv.TArray)},
+		{"CONVERT(Struct)", convertTo(sv.TStruct)},
+		{"UNPACK,PACK", cat(op(sv.UNPACK), op(sv.PACK))},
+		{"UNPACK,PACKSTRUCT", cat(op(sv.UNPACK), op(sv.PACKSTRUCT))},
+		{"UNPACK,PACKMAP", cat(op(sv.UNPACK), op(sv.PACKMAP))},
+		{"APPEND-into-new-array", cat(op(sv.NEWARRAY0), op(sv.DUP), op(sv.ROT), op(sv.APPEND))}, // r = [c or its clone]
+		{"SETITEM-into-new-array", cat(pushI(1), op(sv.NEWARRAY), op(sv.DUP), op(sv.ROT), pushI(0), op(sv.SWAP), op(sv.SETITEM))}, // r = [c or its clone]
+		{"SETITEM-into-new-map", cat(op(sv.NEWMAP), op(sv.DUP), op(sv.ROT), pushI(0), op(sv.SWAP), op(sv.SETITEM))},
+		{"1,PACK", cat(pushI(1), op(sv.PACK))},
+		{"1,PACKSTRUCT", cat(pushI(1), op(sv.PACKSTRUCT))},
+		{"0,PICKITEM", cat(pushI(0), op(sv.PICKITEM))},
+		{"POPITEM", op(sv.POPITEM)},
+	}
+	// in-place mutations of the item on top of the stack (kept), at the
+	// container itself, at its element 0 and at element 0 of element 0
+	var muts []cop
+	for _, path := range []struct {
+		name string
+		sel  []byte
+	}{{"r", op(sv.DUP)}, {"r[0]", cat(op(sv.DUP), pushI(0), op(sv.PICKITEM))}, {"r[1]", cat(op(sv.DUP), pushI(1), op(sv.PICKITEM))}, {"r[0][0]", cat(op(sv.DUP), pushI(0), op(sv.PICKITEM), pushI(0), op(sv.PICKITEM))}} {
+		for _, m := range []cop{
+			{"APPEND(9)", cat(pushI(9), op(sv.APPEND))},
+			{"REMOVE(0)", cat(pushI(0), op(sv.REMOVE))},
+			{"CLEARITEMS", op(sv.CLEARITEMS)},
+			{"SETITEM(0,9)", cat(pushI(0), pushI(9), op(sv.SETITEM))},
+			{"SETITEM(5,9)", cat(pushI(5), pushI(9), op(sv.SETITEM))},
+			{"REVERSEITEMS", op(sv.REVERSEITEMS)},
+			{"POPITEM,DROP", cat(op(sv.POPITEM), op(sv.DROP))},
+		} {
+			muts = append(muts, cop{path.name + "." + m.Name, cat(path.sel, m.Code)})
+		}
+	}
+	return section{"result-freshness-compound", len(origs), func(j int, emit func(prog)) {
+		o := origs[j]
+		run := func(pname string, pcode []byte) {
+			base := cat(o.Code, op(sv.DUP), pcode) // [c, r]
+			e := func(what string, code ...[]byte) {
+				emit(prog{Key: "FRESHC:" + o.Name + ":" + pname + ":" + what, Class: "freshc-" + pname, Script: cat(append([][]byte{base}, code...)...)})
+			}
+			e("none")
+			for _, mu := range muts {
+				e("result:"+mu.Name+",DROP", mu.Code, op(sv.DROP))
+				e("result:"+mu.Name+",both", mu.Code)
+				e("original:"+mu.Name+",both", op(sv.SWAP), mu.Code, op(sv.SWAP))
+			}
+		}
+		for _, p := range prods {
+			run(p.Name, p.Code)
+			for _, q := range prods {
+				run(p.Name+";"+q.Name, cat(p.Code, q.Code))
+			}
+		}
 	}}
 }
